@@ -140,6 +140,14 @@ def read_schema(root, case):
 
 def run_case(case, res=None):
     D, log = c14_component.make_diagram(case)
+    if case.get('derive_id') is not None and D['classes']:
+        # the identifying attribute of one class is a derived one: it is declared nowhere itself, but what refers to it is
+        # an ordinary (referential) attribute typed by its data type
+        c = D['classes'][case['derive_id'] % len(D['classes'])]
+        a = c['attrs'][0]
+        if not a.get('ref') and a.get('derived') is None and unwrap(D, a['type']) is not None:
+            a['derived'] = 'self.%s = 1;' % a['name']
+            log = list(log) + ['identifying attribute %s.%s made derived' % (c['kl'], a['name'])]
     info = dict(case, edits_applied=log)
 
     def fail(bucket, detail):
@@ -229,7 +237,8 @@ def run(ctx):
     strat = st.fixed_dictionaries({'tape': oalsyn.tapes(300, 40), 'edits': oalsyn.tapes(60, 0),
                                    'order': st.lists(st.integers(0, 10 ** 6), min_size=0, max_size=8),
                                    'via_main': st.integers(0, 5).map(lambda k: k == 0),
-                                   'base': st.sampled_from(['synth', 'synth', 'synth', 'simple_model'])})
+                                   'base': st.sampled_from(['synth', 'synth', 'synth', 'simple_model']),
+                                   'derive_id': st.one_of(st.none(), st.none(), st.integers(0, 9))})
     hyp_run(ctx, res, strat, body, ctx.pick(400, 2500), label='diagrams')
     return res
 
